@@ -280,7 +280,42 @@ fn handle_on_connection(
         | TcpState::FinWait2
         | TcpState::CloseWait
         | TcpState::Closing
-        | TcpState::LastAck => handle_established(k, fd, local, remote, s),
+        | TcpState::LastAck => {
+            // Data for a socket the application has already closed can never be
+            // read; queueing it shuts the window for good and strands both ends.
+            // Linux answers "data received after close" with an RST.
+            let orphan = {
+                let st = k.lookup(fd).unwrap();
+                st.fd_closed && !s.payload.is_empty()
+            };
+            if orphan {
+                let (seq, ack) = {
+                    let tcb = k.lookup(fd).unwrap().tcb.as_ref().unwrap();
+                    (tcb.snd_nxt, tcb.rcv_nxt)
+                };
+                emit(
+                    k,
+                    local,
+                    remote,
+                    TcpSegment {
+                        src_port: local.port(),
+                        dst_port: remote.port(),
+                        seq,
+                        ack,
+                        flags: TcpFlags {
+                            rst: true,
+                            ack: true,
+                            ..TcpFlags::default()
+                        },
+                        window: 0,
+                        payload: Bytes::new(),
+                    },
+                );
+                k.sockets.remove(fd);
+                return;
+            }
+            handle_established(k, fd, local, remote, s)
+        }
         TcpState::Closed => {
             // Socket is torn down but the TCB lingers until the shim
             // drops its Fd. Ignore any late inbound traffic.
